@@ -152,7 +152,7 @@ def _general_defs():
     def _(k):
         return [_rule("{ %s }" % P(k), [D(k)]), _rule(P(k), [_a("x", k)])]
 
-    @add("extra-fact")
+    @add("extra-fact", (1,))
     def _(k):
         return [_rule("{ %s }" % P(k), [D(k)]), _rule(_a("p", k, "5", groups=["c"] * k))]
 
@@ -178,7 +178,7 @@ def _general_defs():
     def _(k):
         return [_rule("{ %s }" % P(k), [D(k, "V-1")])]
 
-    @add("alias")
+    @add("alias", (1,))
     def _(k):
         return [_rule("{ %s }" % P(k, "W"), [D(k), "W = V"])]
 
@@ -186,12 +186,12 @@ def _general_defs():
     def _(k):
         return [_rule("{ %s }" % P(k, "f(V)"), [D(k)])]
 
-    @add("func-group", (1, 2))
+    @add("func-group", (1,))
     def _(k):
         tm = _tmpl(k, ["f({g0})", "{g1}"][:k])
         return [_rule("{ %s }" % _pa(tm), [D(k)])], tm
 
-    @add("const-group", (1, 2))
+    @add("const-group", (1,))
     def _(k):
         groups = ["c"] + GV[1:k]
         return [_rule("{ %s }" % _a("p", k, "V", groups), [_a("d", k, "V", groups)])]
@@ -225,11 +225,11 @@ def _general_defs():
     def _(k):
         return [_rule("{ %s }" % Q(k), [D(k)]), _rule("{ %s : %s }" % (P(k), Q(k)), _gb(k))]
 
-    @add("pool-head")
+    @add("pool-head", (0,))
     def _(k):
         return [_rule("{ %s }" % P(k, "(V;V+1)"), [D(k)])]
 
-    @add("comparison")
+    @add("comparison", (1,))
     def _(k):
         return [_rule("{ %s }" % P(k), [D(k), "V > 1"])]
 
@@ -274,7 +274,7 @@ def _mm_consumers():
     def max_bound(k, tm):
         return [_rule(_a("low", k, None), _gb(k) + ["#max { V : %s } < 2" % _pa(tm)])]
 
-    return [("max", max_group), ("minglobal", min_global), ("maxnegelem", max_negelem), ("min", min_group), ("maxbound", max_bound)]
+    return [("max", max_group), ("minglobal", min_global), ("min", min_group), ("maxbound", max_bound)], max_negelem
 
 
 def _sym_consumers():
@@ -321,13 +321,15 @@ def _sum_defs():
 
     @add("count-head")
     def _(k):
-        return [_rule("#count { V : %s : %s } <= 1" % (P(k), D(k)), _gb(k))]
+        # k = 0: tuple starts with the value (not recognised), k = 1: tuple starts with a positive number
+        tup = "V" if k == 0 else "1,V"
+        return [_rule("#count { %s : %s : %s } <= 1" % (tup, P(k), D(k)), _gb(k))]
 
     @add("sum-head")
     def _(k):
         return [_rule("#sum { 1,V : %s : %s } <= 1" % (P(k), D(k)), _gb(k))]
 
-    @add("nearmiss-bound2", K012)
+    @add("nearmiss-bound2")
     def _(k):
         return [_rule("{ %s : %s } 2" % (P(k), D(k)), _gb(k))]
 
@@ -335,7 +337,7 @@ def _sum_defs():
     def _(k):
         return [_rule("{ %s } 1" % P(k), [D(k)])]
 
-    @add("nearmiss-second-rule", K012)
+    @add("nearmiss-second-rule")
     def _(k):
         return [_rule("{ %s : %s } 1" % (P(k), D(k)), _gb(k)), _rule(P(k), [_a("x", k)])]
 
@@ -451,15 +453,19 @@ def programs():
             return res[0], res[1]
         return res, _tmpl(k)
 
-    mm = _mm_consumers()
+    mm, negelem = _mm_consumers()
     sym = _sym_consumers()
+    negelem_defs = ("choice", "two-levels", "bodyagg-static", "interval-head", "static", "input-only")
     for di, (name, fn, ks) in enumerate(_general_defs()):
         for k in ks:
             stmts, tm = split(fn(k), k)
             n_each = 2 if k < 2 else 1
             for j in range(n_each):
-                _, cfn = mm[(di + 2 * k + j * 2) % len(mm)]
+                _, cfn = mm[(di + k + j * (1 + di % 3)) % len(mm)]
                 emit(stmts + cfn(k, tm), name)
+            if name in negelem_defs and k < 2:
+                # the element condition negates the approximated predicate: its domain must not be negated
+                emit(stmts + negelem(k, tm), "negelem-" + name)
             for j in range(n_each):
                 _, cfn = sym[(di + 2 * k + j * 2) % len(sym)]
                 emit(stmts + cfn(k, tm), name)
@@ -472,4 +478,18 @@ def programs():
             for j in range(n_each):
                 _, cfn = sc[(di + k + j * 2) % len(sc)]
                 emit(stmts + cfn(k, tm), "sum-" + name)
+
+    # several consumers of the same approximated predicate / consumer bodies that are themselves choice-defined
+    ch = "{ p(G,V) } :- d(G,V)."
+    am = "{ p(G,V) : d(G,V) } 1 :- g(G)."
+    best = "best(G,M) :- g(G), M = #max { V : p(G,V) }."
+    least = "least(G,M) :- g(G), M = #min { V : p(G,V) }."
+    emit([ch, best, least], "multi-consumer")
+    emit([ch, best, "two(G) :- p(G,X), p(G,Y), X != Y."], "multi-consumer")
+    emit([am, "total(S) :- S = #sum { V,G : p(G,V) }.", ":~ p(G,V). [V@1,G]"], "multi-consumer")
+    emit([am, "total(S) :- S = #sum { V,G : p(G,V) }.", best], "multi-consumer")
+    sel = "{ s(G) } :- g(G)."
+    emit([ch, sel, "best(G,M) :- s(G), M = #max { V : p(G,V) }."], "dynbody-pos")
+    emit([ch, sel, "best(G,M) :- g(G), not s(G), M = #max { V : p(G,V) }."], "dynbody-neg")
+    emit([ch, sel, "least(G,M) :- g(G), not not s(G), M = #min { V : p(G,V) }."], "dynbody-notnot")
     return out
